@@ -97,6 +97,46 @@ def gen_pattern(rng, depth=2):
     return "|".join(gen_concat(rng, depth) for _ in range(n))
 
 
+COUNTED_PREFIX = [("\\b[A-Z]x:", b"Qx:"), ("\\b[A-Z]:", b"Q:"), (":", b":"), ("\\w:", b"k:"), ("[A-Z]+-", b"QK-"), ("", b"")]
+COUNTED_UNIT = [("(ab)", b"ab"), ("(?:xy)", b"xy"), ("a", b"a"), ("(a|b)", None), ("[ab]c", None), ("(?:ab|c)", b"ab")]
+COUNTED_SUFFIX = [(";z", b";z"), (";", b";"), ("y\\b", b"y"), ("", b"")]
+
+
+def gen_counted(rng):
+    """a counted repetition (count around the extractor's limit_repeat = 10) of a short unit between literals, with
+    lines that contain exactly k copies for k around the bounds: (pattern, lines)"""
+    pre, pre_s = rng.choice(COUNTED_PREFIX)
+    unit, unit_s = rng.choice(COUNTED_UNIT)
+    suf, suf_s = rng.choice(COUNTED_SUFFIX)
+    n = rng.choice([9, 10, 10, 11, 11, 12, 12, 13, 20])
+    form = rng.randint(0, 3)
+    m = None
+    if form == 0 or form == 1:
+        q = "{%d}" % n
+    elif form == 2:
+        m = n + rng.choice([1, 2, 3])
+        q = "{%d,%d}" % (n, m)
+    else:
+        q = "{%d,}" % n
+    if rng.random() < 0.15:
+        q += "?"
+    pat = pre + unit + q + suf
+
+    def copies(k):
+        if unit_s is not None:
+            return unit_s * k
+        if unit == "(a|b)":
+            return bytes(rng.choice(b"ab") for _ in range(k))
+        return b"".join(bytes([rng.choice(b"ab")]) + b"c" for _ in range(k))
+    ks = {n - 1, n, n + 1, 10, 11, (m or n) + 1, m or n}
+    lines = []
+    for k in sorted(x for x in ks if x >= 0):
+        lead = rng.choice([b"foo ", b"", b" ", b"x ", b"foo Q"]) if pre_s[:1] != b"Q" else rng.choice([b"foo ", b"", b" "])
+        lines.append(lead + pre_s + copies(k) + suf_s + rng.choice([b" bar", b"", b" ", b"z"]))
+    rng.shuffle(lines)
+    return pat, lines
+
+
 def scrape_repo_patterns():
     """every short Rust string literal in the repository's regex-related tests (most are patterns)"""
     pats = set()
@@ -685,6 +725,11 @@ def run(ctx):
         pats = [gen_pattern(rng) for _ in range(np)]
         o = gen_options(rng)
         cases.append(dict(patterns=pats, opts=o, lines=gen_lines(rng, pats, o, 6)))
+    for _ in range(ctx.count(120)):
+        pat, lines = gen_counted(rng)
+        o = default_opts(word=rng.random() < 0.3, crlf=rng.random() < 0.15, icase=rng.random() < 0.1)
+        cases.append(dict(patterns=[pat], opts=o, lines=lines))
+        stats["counted_repetition_cases"] = stats.get("counted_repetition_cases", 0) + 1
     run_builder_cases(ctx, cases, stats)
     run_hir_cases(ctx, ctx.count(1500), stats)
     ctx.cov["stats"] = {str(k): v for k, v in sorted(stats.items(), key=lambda kv: str(kv[0]))}
